@@ -377,15 +377,38 @@ func dischargeOne(o *Obligation, dir string, timeoutS int) {
 // declared (non-array) constants.
 func getModel(o *Obligation, file string, s solverSpec, timeoutS int) string {
 	mfile := strings.TrimSuffix(file, ".smt2") + ".model.smt2"
-	text := o.smtText(true)
-	for _, w := range o.Watch {
-		text += "(get-value (" + w.Term + "))\n"
+	base := o.smtText(true)
+	mk := func(small bool) string {
+		text := base
+		if small {
+			// prefer a small counterexample: bound every integer witness first
+			text = strings.Replace(text, "(check-sat)\n", "", 1)
+			for _, w := range o.Watch {
+				if o.smt.termIsInt(w.Term) {
+					text += "(assert (and (<= (- 6) " + w.Term + ") (<= " + w.Term + " 6)))\n"
+				}
+			}
+			text += "(check-sat)\n"
+		}
+		for _, w := range o.Watch {
+			text += "(get-value (" + w.Term + "))\n"
+		}
+		return text + "(get-model)\n"
 	}
-	text += "(get-model)\n"
-	if os.WriteFile(mfile, []byte(text), 0o644) != nil {
-		return ""
+	var out string
+	for _, small := range []bool{true, false} {
+		if small && len(o.Watch) == 0 {
+			continue
+		}
+		if os.WriteFile(mfile, []byte(mk(small)), 0o644) != nil {
+			return ""
+		}
+		var res string
+		res, _, out = runSolver(s, mfile, timeoutS)
+		if res == "sat" {
+			break
+		}
 	}
-	_, _, out := runSolver(s, mfile, timeoutS)
 	// the first len(Watch) answers after "sat" are the witness values, one "((term value))" each
 	if len(o.Watch) > 0 {
 		o.Values = map[string]string{}
@@ -406,6 +429,39 @@ func getModel(o *Obligation, file string, s solverSpec, timeoutS int) string {
 		out = out[:200000]
 	}
 	return out
+}
+
+// termIsInt: a cheap syntactic test whether a witness term is integer-sorted (a declared Int
+// constant, a literal, or an arithmetic / integer-select application).
+func (m *SMT) termIsInt(t Term) bool {
+	if s, ok := m.sorts[t]; ok {
+		return s == SInt
+	}
+	if len(t) > 0 && (t[0] >= '0' && t[0] <= '9') {
+		return true
+	}
+	for _, p := range []string{"(+ ", "(- ", "(* ", "(godiv ", "(gorem "} {
+		if strings.HasPrefix(t, p) {
+			return true
+		}
+	}
+	if strings.HasPrefix(t, "(select ") {
+		// (select A i): look up the array's sort
+		rest := t[len("(select "):]
+		name := rest
+		if i := strings.IndexAny(rest, " )"); i > 0 {
+			name = rest[:i]
+		}
+		if strings.HasPrefix(rest, "|") {
+			if j := strings.Index(rest[1:], "|"); j >= 0 {
+				name = rest[:j+2]
+			}
+		}
+		if s, ok := m.sorts[name]; ok {
+			return strings.HasSuffix(s, " Int)") && strings.Count(s, "Array") == 1
+		}
+	}
+	return false
 }
 
 // nextGetValue parses one "((term value))" answer and returns the value text.
